@@ -71,6 +71,16 @@ reg('C08', 'exploration',
     TB + 'Symbol oracle atom table; "accepted spelling" is defined as the key set of the library\'s spelling table (iterated, not looked up).',
     'exhaustive table enumeration + bounded exhaustive negative-space strings against independent oracle', 'DESIGN.md section 7 C08')
 
+reg('C11', 'exploration',
+    'Bounded exhaustive exploration of every angle entry point found by probing (8 constructor kernels, 6 member forms on plain '
+    'vectors/directions, Angle(Q,Q) and q.Angle(q) of every vector-valued quantity type) x 3 numeric types over pair families that '
+    'cover the property\'s branch regions: ALL parallel and antiparallel pairs (a, +-k a) for a in {-4..4}^D and six factors k, nearly '
+    'parallel pairs a + 2^-k e_j for every k up to the mantissa width, all pairs of {-2..2}^D, each under power-of-two rescalings of '
+    'either argument. Oracle on every evaluation: not NaN, in [0, pi], bitwise symmetric, bitwise scale invariant, within '
+    '1e-3/1e-7/1e-9 rad of atan2(|a x b|, a.b) evaluated in __float128.',
+    TB + 'Value axis is a finite alphabet: integer-lattice directions and their neighbourhoods, not all real vectors.',
+    'bounded exhaustive enumeration of kernels x pair families against __float128 atan2 reference', 'DESIGN.md section 7 C11')
+
 PENDING = 'check not built yet in this session (planned, see DESIGN.md section 7); not a statement that model checking cannot apply'
 
 
